@@ -216,6 +216,9 @@ class Check(PropertyCheck):
                     case["content_hex"] = hx(txt.encode(enc)); case["set_content"] = 1
                     if unhx(case["method_hex"]) == b"GET" and rng.chance(0.5): case["method_hex"] = hx(b"POST")
             yield case
+            if rng.chance(0.12):
+                cr = self._curlreal_case(rng, case)
+                if cr is not None: yield cr
 
     # ------------------------------------------------------------------ implementation
     def setup(self, tier):
@@ -383,7 +386,137 @@ class Check(PropertyCheck):
         if not line: raise RuntimeError("fresh-state worker died")
         return json.loads(line)
 
+    # ------------------------------------------------------------------ the real /usr/bin/curl against a local listener
+    CURL = "/usr/bin/curl"
+    CURL_OWN = (b"host", b"user-agent", b"accept", b"content-type", b"content-length", b"accept-encoding")
+
+    def _curlreal_case(self, rng, case):
+        """a request the real curl can be run with: http, a host a URL can carry, token method and header names (not the ones curl
+        manages on its own), values without line breaks, a text body not starting with '@'"""
+        import re
+        if not os.path.exists(self.CURL): return None
+        c = {k: v for k, v in case.items() if k not in ("prime", "order")}
+        c["op"] = "curlreal"; c["scheme"] = "http"; c["version"] = "HTTP/1.1"; c["authority"] = 0; c["preserve"] = 0; c["peer"] = None
+        c["set_content"] = 1
+        if not re.fullmatch(rb"[A-Za-z][A-Za-z-]*", unhx(c["method_hex"])): c["method_hex"] = hx(rng.pick([b"GET", b"POST", b"PUT", b"M-SEARCH"]))
+        if not self._plain_host(c) or not re.fullmatch(rb"/[!-~]*", unhx(c["path_hex"])) or b"#" in unhx(c["path_hex"]):
+            c["host_hex"] = hx(rng.pick([b"example.com", b"2001:db8::1", b"1.2.3.4"])); c["path_hex"] = hx(b"/p?a=b")
+        hs = []
+        for n, v in c["headers"]:
+            n_, v_ = unhx(n), unhx(v)
+            if refparsers.TOKEN.match(n_) and n_.lower() not in (b"expect", b"transfer-encoding", b"connection", b"content-length", b"te", b"upgrade") \
+                    and not any(ch in v_ for ch in b"\r\n\x00"):
+                hs.append([n, v])
+        if rng.chance(0.5): hs.append([hx(rng.pick([b"X-Empty", b"Cookie", b"x-blank"])), hx(rng.pick([b"", b" ", b"\t "]))])
+        c["headers"] = hs
+        body = None if c["content_hex"] is None else unhx(c["content_hex"])
+        if body is not None:
+            try: body.decode("utf-8")
+            except UnicodeDecodeError: body = b"text body"
+            if body.startswith(b"@") or b"\x00" in body: body = b"x" + body.replace(b"\x00", b"")
+            c["content_hex"] = hx(body)
+        return c
+
+    def _real_curl(self, args):
+        """run the real curl with `args`, every connection redirected to a listener on 127.0.0.1 that records the request and
+        answers 204; returns (exit status, raw request bytes or None)"""
+        import socket, threading, re
+        srv = socket.socket(); srv.bind(("127.0.0.1", 0)); srv.listen(1); port = srv.getsockname()[1]
+        got = []
+
+        def serve():
+            srv.settimeout(6)
+            try: conn, _ = srv.accept()
+            except OSError: got.append(None); return
+            conn.settimeout(1.0); data = b""
+            try:
+                while True:
+                    d = conn.recv(65536)
+                    if not d: break
+                    data += d
+                    if b"\r\n\r\n" in data:
+                        head, _, body = data.partition(b"\r\n\r\n")
+                        m = re.search(rb"(?i)\r\ncontent-length:[ \t]*(\d+)", head)
+                        if m and len(body) >= int(m.group(1)): break
+                        if not m and b"chunked" not in head.lower(): break
+                        if not m and body.endswith(b"0\r\n\r\n"): break
+            except OSError: pass
+            try: conn.sendall(b"HTTP/1.1 204 No Content\r\nConnection: close\r\n\r\n")
+            except OSError: pass
+            conn.close(); got.append(data)
+        t = threading.Thread(target=serve); t.start()
+        out = os.path.join(self.tmp, "curl-out-%d" % os.getpid())
+        r = subprocess.run([self.CURL, "-q", "-s", "--max-time", "4", "--noproxy", "*", "--connect-to", "::127.0.0.1:%d" % port, "-o", out]
+                           + args, capture_output=True, stdin=subprocess.DEVNULL, env={"PATH": "/usr/bin:/bin", "HOME": self.tmp})
+        t.join(); srv.close()
+        return r.returncode, (got[0] if got else None)
+
+    def _curlreal_ok(self, case):
+        import re
+        if not re.fullmatch(rb"[A-Za-z][A-Za-z-]*", unhx(case["method_hex"])): return False
+        if not self._plain_host(case) or not re.fullmatch(rb"/[!-~]*", unhx(case["path_hex"])) or b"#" in unhx(case["path_hex"]): return False
+        for n, v in case["headers"]:
+            if not refparsers.TOKEN.match(unhx(n)) or any(ch in unhx(v) for ch in b"\r\n\x00"): return False
+        return True
+
+    def _impl_curlreal(self, case):
+        if not self._curlreal_ok(case): raise Skip()       # (also keeps the shrinker inside the kind's domain)
+        from mitmproxy.addons import export
+        tctx = self._ctx()
+        tctx.options.export_preserve_original_ip = False
+        f = self._flow(case)
+        cmd = export.formats["curl"](f).encode("utf-8", "surrogateescape")
+        run = self._shell("bash", cmd, False, "fn")
+        obs = {"kind": "curlreal", "cmd_hex": hx(cmd), "run": run, "api_method_hex": hx(f.request.method.encode("utf-8", "surrogateescape"))}
+        if not run["parse_ok"] or len(run["inv"]) != 1 or run["rc"] != 0 or run["stderr"]:
+            obs["raw"] = None; return obs
+        argv = [unhx(x) for x in run["inv"][0]]
+        rc, raw = self._real_curl([a.decode("utf-8", "surrogateescape") for a in argv[1:]])
+        obs["curl_rc"] = rc; obs["raw_hex"] = None if raw is None else hx(raw)
+        return obs
+
+    def _oracle_curlreal(self, case, obs):
+        """what the REAL curl sends for the exported command: (a) the harness's reading of the argv (`_curl_semantics`,
+        `_sent_header` - the twins of Model.C48.decodeCurl / sentHeader) agrees with it; (b) it is the request: method, path,
+        every header (value up to surrounding whitespace; Accept-Encoding -> curl's own), and the text body"""
+        fails = []
+        r = obs["run"]
+        if obs.get("raw_hex") is None or obs.get("curl_rc") != 0:
+            return [f"curlreal: the real curl did not deliver a request (stub run rc={r['rc']} stderr={r['stderr']!r}, curl rc={obs.get('curl_rc')})"]
+        p = refparsers.parse_requests(unhx(obs["raw_hex"]))
+        if p.stop is not None or len(p.messages) != 1:
+            return [f"curlreal: what curl sent is not one well-formed request: {p.stop} {unhx(obs['raw_hex'])[:200]!r}"]
+        m = p.messages[0]
+        sent_lines = [(bytes(k), bytes(v)) for k, v in m["fields"]]
+        argv = [unhx(x) for x in r["inv"][0]]
+        c = self._curl_semantics(argv)
+        ws = b" \t\n\x0b\x0c\r\x1c\x1d\x1e\x1f"
+        # (a) the readers
+        if m["method"] != c["eff_method"]: fails.append(f"curlreal: curl sent method {m['method']!r}, the argv reader says {c['eff_method']!r}")
+        low = lambda pairs: [(k.lower(), v) for k, v in pairs]       # field names are case-insensitive (curl re-spells Host itself)
+        twin = low(self._line_pair(l) for l in map(self._sent_header, c["H"]) if l is not None)
+        mine = [(k.lower(), v.strip(ws)) for k, v in sent_lines if (k.lower(), v.strip(ws)) in twin or k.lower() not in self.CURL_OWN]
+        if sorted(mine) == sorted(twin): mine = twin                  # curl moves Host / User-Agent lines to its own positions
+        if mine != twin: fails.append(f"curlreal: curl sent the header lines {mine!r}, the -H reader says {twin!r}")
+        if (c["data"] or b"") != m["body"]: fails.append(f"curlreal: curl sent the body {m['body']!r}, the argv reader says {c['data']!r}")
+        if c["compressed"] != any(k.lower() == b"accept-encoding" and b"gzip" in v for k, v in sent_lines if (k.lower(), v.strip(ws)) not in twin):
+            fails.append("curlreal: --compressed and curl's own Accept-Encoding line do not correspond")
+        # (b) the request
+        if m["method"] != unhx(obs["api_method_hex"]): fails.append(f"curlreal: curl sent method {m['method']!r}, the request has {unhx(obs['api_method_hex'])!r}")
+        if m["target"] != unhx(case["path_hex"]): fails.append(f"curlreal: curl requested {m['target']!r}, the request's path is {unhx(case['path_hex'])!r}")
+        want = [(k.lower(), v.strip(ws)) for k, v in self._expected_headers(case) if k.lower() != b"accept-encoding"]
+        body = b"" if case["content_hex"] is None else unhx(case["content_hex"])
+        if unhx(obs["api_method_hex"]) != b"GET" and not body: want.append((b"content-length", b"0"))
+        have = [(k.lower(), v.strip(ws)) for k, v in sent_lines]
+        missing = [h for h in want if h not in have]
+        if missing: fails.append(f"curlreal: request headers {missing!r} are not among what curl sent {have!r}")
+        has_ctl = any(ch < 32 for ch in body)
+        if body and not (has_ctl and body.endswith(b"\n")) and m["body"] != body:      # trailing newline: finding F-C48b (argv level)
+            fails.append(f"curlreal: curl sent the body {m['body']!r}, the request's is {body!r}")
+        return fails
+
     def impl(self, case):
+        if case.get("op") == "curlreal": return self._impl_curlreal(case)
         from mitmproxy.addons import export
         from mitmproxy import exceptions
         tctx = self._ctx()
@@ -539,6 +672,25 @@ class Check(PropertyCheck):
         return out
 
     @staticmethod
+    def _sent_header(a):
+        """the line curl puts on the wire for one -H argument (lib/http.c Curl_add_custom_headers; confirmed against the real
+        /usr/bin/curl by the `curlreal` cases): with a colon, the argument itself unless only spaces follow the colon (header
+        removed); without a colon, `name;` (first ';' = last character) is sent as `name:`; anything else is ignored"""
+        sp = b" \t\n\x0b\x0c\r"
+        if b":" in a:
+            return a if a.split(b":", 1)[1].lstrip(sp) != b"" else None
+        if b";" in a and a.index(b";") == len(a) - 1:
+            return a[:-1] + b":"
+        return None
+
+    @staticmethod
+    def _line_pair(line):
+        """(name, value without surrounding whitespace) of a header line"""
+        i = line.find(b":", 1 if line.startswith(b":") else 0)       # a pseudo-header name starts with ':'
+        n, v = (line, b"") if i < 0 else (line[:i], line[i + 1:])
+        return (n, v.strip(b" \t\n\x0b\x0c\r\x1c\x1d\x1e\x1f"))
+
+    @staticmethod
     def _curl_semantics(argv):
         """curl's reading of its command line (the options the exporter may use)"""
         out = {"method": None, "H": [], "compressed": False, "resolve": [], "data": None, "urls": [], "unknown": []}
@@ -591,6 +743,7 @@ class Check(PropertyCheck):
 
     def oracle(self, case, obs):
         """the statement applied to EVERY export of the sequence, plus: an export does not change the flow"""
+        if obs.get("kind") == "curlreal": return self._oracle_curlreal(case, obs)
         fails = []
         for i, step in enumerate(obs["seq"]):
             tag = "" if i == 0 else f" [export #{i + 1} of {'>'.join(self._order(case))} on the same flow]"
@@ -644,9 +797,14 @@ class Check(PropertyCheck):
                         d = self._dial(c["urls"][0])
                         if not self._dial_ok(case, d):
                             fails.append(f"{tag}: url {c['urls'][0]!r} makes curl dial {d!r}, the request goes to one of {sorted(self._dial_targets(case))!r}")
-                    want_H = [k + b": " + v for k, v in exp_h if k.lower() != b"accept-encoding"]
-                    if method != b"GET" and not has_content: want_H.append(b"content-length: 0")
-                    if c["H"] != want_H: fails.append(f"{tag}: -H lines {c['H']!r} != {want_H!r}")
+                    # the header lines curl SENDS for its -H arguments must be the request's header set (name, value up to
+                    # surrounding whitespace), in order; an empty value must still be sent
+                    want_H = [(k, v.strip(b" \t\n\x0b\x0c\r\x1c\x1d\x1e\x1f")) for k, v in exp_h if k.lower() != b"accept-encoding"]
+                    if method != b"GET" and not has_content: want_H.append((b"content-length", b"0"))
+                    sent = [self._sent_header(a) for a in c["H"]]
+                    got_H = [self._line_pair(l) for l in sent if l is not None]
+                    if got_H != want_H or None in sent:
+                        fails.append(f"{tag}: header lines curl sends for -H {c['H']!r} are {got_H!r} != {want_H!r}")
                     if c["compressed"] != any(k.lower() == b"accept-encoding" for k, v in exp_h):
                         fails.append(f"{tag}: --compressed does not mirror the presence of Accept-Encoding")
                     if case["preserve"] and case["peer"] and unhx(obs["pretty_host_hex"]) != case["peer"].encode():
@@ -662,7 +820,10 @@ class Check(PropertyCheck):
                     elif not has_content and c["data"] is not None:
                         fails.append(f"{tag}: -d present although the request has no content")
                 else:
-                    want = [prog, method, argv[2] if len(argv) > 2 and argv[2] in urls else urls[0]] + [k + b": " + v for k, v in exp_h]
+                    # httpie request items (documented grammar): `Name: value`, and `Name;` for an empty value
+                    blank = lambda v: v.strip(b" \t\n\x0b\x0c\r\x1c\x1d\x1e\x1f") == b""
+                    want = [prog, method, argv[2] if len(argv) > 2 and argv[2] in urls else urls[0]] + \
+                        [(k + b";") if blank(v) else (k + b": " + v) for k, v in exp_h]
                     if argv != want: fails.append(f"{tag}: argv {argv[1:]!r} != {want[1:]!r}")
                     elif self._plain_host(case):
                         d = self._dial(argv[2])
@@ -722,6 +883,26 @@ class Check(PropertyCheck):
         is the recorded one: the body clause of a curl export, under the recorded shell, with the received -d value being
         exactly what the recorded mechanism produces.  Everything is read off the export step the failure message names."""
         import re as _re
+        mh = _re.match(r"curl/(sh|bash): header lines curl sends for -H ", failure)
+        if mh:
+            # F-C48f: the ONLY header lines missing on the wire belong to headers whose name contains ';' and whose value is
+            # blank (`X;id;` is not curl's empty-header form); every other line is there, in order
+            sh = mh.group(1)
+            ms = _re.search(r" \[export #(\d+) of ", failure)
+            idx = int(ms.group(1)) - 1 if ms else 0
+            if idx >= len(obs["seq"]) or obs["seq"][idx]["fmt"] != "curl": return None
+            r = obs["seq"][idx]["o"].get(sh)
+            if not r or not r["parse_ok"] or len(r["inv"]) != 1 or r["rc"] != 0 or r["stderr"]: return None
+            c = self._curl_semantics([unhx(x) for x in r["inv"][0]])
+            ws = b" \t\n\x0b\x0c\r\x1c\x1d\x1e\x1f"
+            want = [(k, v.strip(ws)) for k, v in self._expected_headers(case) if k.lower() != b"accept-encoding"]
+            has_content = bool(obs["clean_content_hex"] and unhx(obs["clean_content_hex"]))
+            if unhx(obs["api_method_hex"]) != b"GET" and not has_content: want.append((b"content-length", b"0"))
+            sent = [self._sent_header(a) for a in c["H"]]
+            got = [self._line_pair(l) for l in sent if l is not None]
+            lost = [h for h in want if b";" in h[0] and b":" not in h[0] and h[1] == b""]
+            rest = [h for h in want if h not in lost]
+            return "F-C48f" if lost and got == rest else None
         m = _re.match(r"curl/(sh|bash): body: ", failure)
         if not m: return None
         sh = m.group(1)
@@ -781,6 +962,22 @@ class Check(PropertyCheck):
               (b"a\x01b", "bash", b"a\\x01b", neq("bash", b"a\\x01b", b"a\x01b"), None),              # bash must decode \x
               (b"plain", "sh", b"plai", neq("sh", b"plai", b"plain"), None),                            # no control character
               (b"a\x01%", "sh", b"a\\x01", neq("sh", b"a\\x01", b"a\x01%"), None)]                   # '%' lost as well
+        # F-C48f (header clause): positive + near misses
+        def fakeh(hdrs, sh, argvH):
+            case = {"content_hex": None, "host_hex": hx(b"h"), "headers": [[hx(a), hx(b)] for a, b in hdrs]}
+            inv = [hx(b"curl")] + [x for a in argvH for x in (hx(b"-H"), hx(a))] + [hx(b"http://h/")]
+            run = {"rc": 0, "stderr": "", "parse_ok": True, "stdin": None, "mode": "fn", "inv": [inv]}
+            return case, {"text_hex": None, "clean_content_hex": "-", "api_method_hex": hx(b"GET"),
+                          "seq": [{"fmt": "curl", "o": {"cmd_hex": "-", sh: run}, "changed": False}]}
+        hf = lambda sh: f"curl/{sh}: header lines curl sends for -H [...] are [...] != [...]"
+        case, obs = fakeh([(b"X;id", b""), (b"a", b"b")], "sh", [b"X;id;", b"a: b"])
+        assert self.known(case, obs, hf("sh")) == "F-C48f"
+        case, obs = fakeh([(b"X;id", b""), (b"a", b"b")], "sh", [b"X;id;"])                 # another line is missing too
+        assert self.known(case, obs, hf("sh")) is None
+        case, obs = fakeh([(b"x-empty", b""), (b"a", b"b")], "bash", [b"x-empty: ", b"a: b"])   # the OLD defect: not this finding
+        assert self.known(case, obs, hf("bash")) is None
+        case, obs = fakeh([(b"X;id", b"v")], "sh", [b"X;id: w"])                           # value differs, nothing lost
+        assert self.known(case, obs, hf("sh")) is None
         # a later export of the sequence is judged on its own step
         case, obs = fake(b"line\n", "bash", b"line", step=1)
         assert self.known(case, obs, neq("bash", b"line", b"line\n", 1)) == "F-C48b"
@@ -814,6 +1011,7 @@ class Check(PropertyCheck):
                 "trailers": clean.data.trailers is not None}
 
     def model_lines(self, case):
+        if case.get("op") == "curlreal": return None        # judged against the real curl by the oracle; the argv readers are tied by `sent`/`curl`
         a = self._answers(case)
         m = a["method"]
         hd = (" " + " ".join(a["hdrs"])) if a["hdrs"] else ""
@@ -825,7 +1023,24 @@ class Check(PropertyCheck):
         inp = self._url_inputs(case)
         if inp is not None:
             lines.append("url %s %s %d %s" % (hx(inp[0].encode()), hx(inp[1].encode()), inp[2], hx(inp[3].encode())))
+        hargs = self._h_args(case)
+        if hargs is not None:
+            lines.append("sent " + " ".join(hx(a) for a in hargs) if hargs else "sent")
         return lines
+
+    def _h_args(self, case):
+        """the -H arguments of the exported curl command (read with shlex from the real export), or None"""
+        import shlex
+        from mitmproxy.addons import export
+        from mitmproxy import exceptions
+        if "curl" not in self._order(case): return None
+        try:
+            cmd = export.formats["curl"](self._flow(case))
+            argv = shlex.split(cmd.split(' -d "$(printf ')[0])
+        except (exceptions.CommandError, ValueError, Skip):
+            return None
+        out = [argv[i + 1] for i in range(len(argv) - 1) if argv[i] == "-H"]
+        return [a.encode("utf-8", "surrogateescape") for a in out]
 
     @staticmethod
     def _show_exec(r, prog_name):
@@ -846,6 +1061,10 @@ class Check(PropertyCheck):
             if o["cmd_hex"] == "error": out.append("error"); continue
             out.append({"cmd": o["cmd_hex"], "sh": self._show_exec(o.get("sh"), prog), "bash": self._show_exec(o.get("bash"), prog)})
         if obs.get("url_tie") is not None: out.append(obs["url_tie"])
+        if "curl" in self._order(case) and obs.get("curl", {}).get("cmd_hex") not in (None, "error"):
+            hargs = self._h_args(case)
+            if hargs is not None:
+                out.append(",".join(hx(l) if l is not None else "none" for l in map(self._sent_header, hargs)) if hargs else "-")
         return out
 
     def model_obs(self, case, replies):
@@ -858,7 +1077,7 @@ class Check(PropertyCheck):
             # the harness does not run a here-string under /bin/sh (syntax error there)
             if fmt == "httpie" and v["cmd"] and b" <<< " in unhx(v["cmd"]): v["sh"] = None
             out.append(v)
-        if len(replies) > len(self._order(case)): out.append(replies[-1])      # the `url` transcription line
+        out += list(replies[len(self._order(case)):])      # the `url` and `sent` transcription lines
         return out
 
     def classify(self, case, obs):
@@ -868,6 +1087,7 @@ class Check(PropertyCheck):
         return json.dumps(case, sort_keys=True) if any(c not in safe for f in fields for c in f) else None
 
     def branches(self, case, obs):
+        if obs.get("kind") == "curlreal": return ["curlreal", "curlreal:rc%s" % obs.get("curl_rc")]
         out = ["order:" + ">".join(self._order(case))]
         if "curl" in obs: out.append("curl:" + ("error" if obs["curl"]["cmd_hex"] == "error" else "ok"))
         t = obs["text_hex"]
